@@ -156,7 +156,21 @@ def apply_contract(interp, c, func, args, kwargs):
         k = st.choose(1 + len(nondet))
         if k > 0:
             raise_(*nondet[k - 1])
-    if isinstance(c.returns, Ty):
+    from .api import _Int as _I, _Bool as _B, _Str as _S
+    if getattr(c, 'pure_result', False):
+        for n in list(bound):
+            if isinstance(bound[n], (SOpt, SChoice)):
+                bound[n] = interp.resolve(bound[n])
+    if getattr(c, 'pure_result', False) and isinstance(c.returns, (_I, _B, _S)) and \
+            all(isinstance(v, (SInt, SBool, int, str, bool)) or type(v).__name__ == 'SStr' for v in bound.values()):
+        # a deterministic function without effects: its result is an uninterpreted function of the arguments
+        # (that it is one is what `pure_result=True` claims: the body reads nothing but its arguments)
+        names = list(bound)
+        ts = [to_z3(bound[n]) for n in names]
+        rs = {_I: z3.IntSort(), _B: z3.BoolSort(), _S: z3.StringSort()}[type(c.returns)]
+        uf = z3.Function('fn.' + c.qname.replace(':', '.'), *([t.sort() for t in ts] + [rs]))
+        result = wrap(uf(*ts))
+    elif isinstance(c.returns, Ty):
         result = c.returns.make(interp, 'ret.%s' % c.qname.rpartition(':')[2])
     elif callable(c.returns):
         # the result is built from the actual arguments (e.g. an object that refers to them)
